@@ -397,7 +397,11 @@ static void run_subprocess(char **argv) {
     fprintf(stderr, "\n");
   }
 
-  if (fork() == 0) {
+  pid_t pid = fork();
+  if (pid < 0)
+    error("fork failed: %s: %s", argv[0], strerror(errno));
+
+  if (pid == 0) {
     // Child process. Run a new command.
     execvp(argv[0], argv);
     fprintf(stderr, "exec failed: %s: %s\n", argv[0], strerror(errno));
